@@ -312,6 +312,13 @@ impl<'a, 'src: 'a> Compiler<'a, 'src> {
     }
   }
 
+  /// Continue numbering inline cache slots from the provided emitter. Used when
+  /// a module is compiled more than once such as in the repl
+  pub fn with_cache_id_emitter(mut self, cache_id_emitter: CacheIdEmitter) -> Self {
+    self.cache_id_emitter = Rc::new(RefCell::new(cache_id_emitter));
+    self
+  }
+
   /// Compile the provided ast into managed function objects that
   /// contain the vm bytecode
   pub fn compile(
